@@ -34,7 +34,7 @@ def variant_names(prog, adt):
 def run(ctx):
     prog = ctx.prog
     # ---- 1. penalty table
-    ub = prog.async_body(ENG + '::update_node_stats')
+    ub = prog.inl(ENG + '::update_node_stats')
     ctx.touch(ub, len(ub.calls()))
     vs = variant_names(prog, UPD)
     table = {}
@@ -191,7 +191,7 @@ def run(ctx):
             e = F.Expr('call', cs.callee, [gt.expr(a) for a in cs.args], cs)
             okc = okc and 'trust_cache' in e.show() and (e.mentions_call(r'unwrap_or$') is None or e.mentions_call(r'unwrap_or$').b[1].const_value() == 0.0)
     ctx.ob('CACHE', 'get_trust', okc and bool(gt.defs().get(0)), gt.where(), 'get_trust returns the trust_cache entry or the constant 0.0: %s' % okc)
-    cb = prog.async_body(ENG + '::compute_global_trust_internal')
+    cb = prog.inl(ENG + '::compute_global_trust_internal', keep=r'::compute_multi_factor_adjustment$')
     ins = [c for c in cb.calls(r'HashMap::<.*>::insert$') if 'trust_cache' in cb.expr(c.args[0]).show()]
     okw = False
     for c in ins:
